@@ -281,6 +281,10 @@ def check_reserved_source(ctx: Ctx, m, is_nfa: bool, origin: str):
         raise InfraError("reserved-alphabet family produced a literal alphabet")
     ctx.case(None)
     ctx.stat(origin)
+    # model ↔ code also here: the executable model has no literal-alphabet restriction (the constructors
+    # validate with `reValidate`, the C10 lexer model, so LexerError / ValueError / InvalidRegexError of
+    # from_dfa / from_nfa on such alphabets are compared by class, and the strings exactly)
+    correspondence(ctx, m, is_nfa, describe(m, is_nfa), False, False)
     if not language_nonempty(m, is_nfa):
         ctx.stat("out_of_domain_empty_language")
         return
@@ -400,20 +404,30 @@ def shape_stats(ctx: Ctx, m, is_nfa: bool, s: Optional[str], origin: str):
 
 
 def check_source(ctx: Ctx, m, is_nfa: bool, origin: str, all_ties: bool = False):
-    drv = ctx.driver("drv_gnfa")
     case = describe(m, is_nfa)
     # --- the property itself, on the real code
     s_prop, failure = property_on_real_code(ctx, m, is_nfa)
     nontrivial = (failure is None and isinstance(s_prop, str) and len(m.states) >= 2
                   and language_nonempty(m, is_nfa) and any(c in s_prop for c in "*|?"))
     if is_nfa:
-        enc, st, _ = enc_nfa(m, sy=CODE)
+        enc, _, _ = enc_nfa(m, sy=CODE)
     else:
-        enc, st, _ = enc_dfa(m, sy=CODE)
+        enc, _, _ = enc_dfa(m, sy=CODE)
     ctx.case((case["kind"], enc) if nontrivial else None)
     shape_stats(ctx, m, is_nfa, s_prop, origin)
     if failure is not None:
         ctx.prop_fail(f"{case['kind']}: {failure}", dict(case, regex=s_prop), None)
+    correspondence(ctx, m, is_nfa, case, failure is not None, all_ties)
+
+
+def correspondence(ctx: Ctx, m, is_nfa: bool, case: dict, prop_failed: bool, all_ties: bool):
+    """Model ↔ code on one source: GNFA_BUILD, GNFA_TO_REGEX (real tie-breaks), optionally every tie-break.
+    Differences are not reported when the property already failed on this input (one report per input)."""
+    drv = ctx.driver("drv_gnfa")
+    if is_nfa:
+        enc, st, _ = enc_nfa(m, sy=CODE)
+    else:
+        enc, st, _ = enc_dfa(m, sy=CODE)
     # --- GNFA_BUILD
     natmap = [st(k) for k in range(len(st.order) + 3)]
     rb = call(lambda: (GNFA.from_nfa if is_nfa else GNFA.from_dfa)(m))
@@ -422,10 +436,11 @@ def check_source(ctx: Ctx, m, is_nfa: bool, origin: str, all_ties: bool = False)
     mb = t.res(lambda: read_gnfa(t))
     ib = ("ok", gnfa_plain(rb[1], st)) if rb[0] == "ok" else rb
     if ib != mb:
-        if failure is None:
+        if not prop_failed:
             ctx.corr_diff("GNFA_BUILD", case, ib, mb)
         return
     if rb[0] != "ok":
+        ctx.stat("gnfa_build_both_raise_" + rb[1])
         return
     g = rb[1]
     # --- GNFA_TO_REGEX with the real tie-breaks
@@ -443,7 +458,7 @@ def check_source(ctx: Ctx, m, is_nfa: bool, origin: str, all_ties: bool = False)
     mr = t.res(rd)
     ir = ("ok", (rips, rr[1])) if rr[0] == "ok" else rr
     if ir != mr:
-        if failure is None:
+        if not prop_failed:
             ctx.corr_diff("GNFA_TO_REGEX", dict(case, rips=[repr(q) for q in rec.rips]), ir, mr)
         return
     if ctx.evaluations % 499 == 1:
@@ -457,7 +472,7 @@ def check_source(ctx: Ctx, m, is_nfa: bool, origin: str, all_ties: bool = False)
         ctx.stat("all_tie_breaks_checked")
         ctx.stat("all_tie_breaks_distinct_results", len({repr(o) for o in outs}))
         if rr not in outs:
-            if failure is None:
+            if not prop_failed:
                 ctx.corr_diff("GNFA_TO_REGEX_ALL", case, rr, outs)
 
 
@@ -538,6 +553,50 @@ def check_direct(ctx: Ctx, params: dict, origin: str):
             pass
     if ir != mr:
         ctx.corr_diff("GNFA_DIRECT", dict(case, rips=[repr(q) for q in rec.rips]), ir, mr)
+
+
+BRACE_LABELS = ["a{1,1}", "{|,|}", "a{,}", "{", "}", "a{1,a}", "a{2,1}", "a{1,2}", "{1,2}", "a{-1,2}", "a{ 1,2}",
+                "a{1,2", "(a){,1}", "a|{", "a{,}}", "1,", "a{1,2}{1,2}", "", "a", "()", "a{1_0,}", ","]
+
+
+def rand_brace_gnfa(rng) -> dict:
+    """GNFA definitions over an alphabet containing `{ , }` and digits: labels on which `re._validate`
+    runs the quantifier rule (ValueError of int(), InvalidRegexError of the bound checks, valid quantifiers)."""
+    n_inner = rng.randint(0, 2)
+    inner = list(range(n_inner))
+    qi, qf = n_inner, n_inner + 1
+    states = inner + [qi, qf]
+    trans = {}
+    for p in states:
+        if p == qf:
+            continue
+        trans[p] = {q: (None if rng.random() < 0.4 else rng.choice(BRACE_LABELS)) for q in states if q != qi}
+    return dict(states=set(states), input_symbols=set(rng.choice(["a{},12", "a{,}1", "{},a12-_ "])),
+                transitions=trans, initial_state=qi, final_state=qf)
+
+
+RE_VALIDATE_CHARS = "ab()|*?&+^. \t\n{},12-_"
+
+
+def check_re_validate(ctx: Ctx, s: str):
+    """`re._validate(s)` (True / False / escaping exception) vs the model `reValidate`; on strings without
+    `{` also vs the stand-alone model `simpleRxValid` that the theorems of Props/C12.lean mention."""
+    import automata.regex.regex as re_mod
+    drv = ctx.driver("drv_gnfa")
+    ctx.case(None)
+    impl = call(lambda: bool(re_mod._validate(s)))
+    ctx.stat("re_validate_" + (str(impl[1])))
+
+    def ask(cmd):
+        t = Toks(drv.ask(toks(cmd, enc_str(s))))
+        return t.res(lambda: t.next() == "1")
+    mod = ask("RX_VALID")
+    if impl != mod:
+        ctx.corr_diff("RE_VALIDATE", dict(s=s), impl, mod)
+    if "{" not in s:
+        mod2 = ask("RX_VALID_SIMPLE")
+        if impl != mod2:
+            ctx.corr_diff("RE_VALIDATE_SIMPLE", dict(s=s), impl, mod2)
 
 
 BAD_LABELS = ["a|", "|a", "(", ")", "a)(", "*a", "a||b", "(|a)", "?", "z", "a z", "a+", "(a", "a**", "a?*", "()(",
@@ -809,6 +868,13 @@ def run(ctx: Ctx):
         if rng.random() < 0.3:
             p = mutate_def(rng, p)
         check_direct(ctx, p, "malformed_gnfa")
+    for _ in range(ctx.budget(300, 4000)):
+        check_direct(ctx, rand_brace_gnfa(rng), "brace_gnfa")
+    # 3b. re._validate itself: the shared model (C10 lexer + validate_tokens) and the stand-alone one
+    for s in BRACE_LABELS + BAD_LABELS + LABEL_POOL:
+        check_re_validate(ctx, s)
+    for _ in range(ctx.budget(1500, 20000)):
+        check_re_validate(ctx, "".join(rng.choice(RE_VALIDATE_CHARS) for _ in range(rng.randint(0, 9))))
     # 4. _isbracket_req
     for _ in range(ctx.budget(500, 10000)):
         s = "".join(rng.choice("ab()|*?") for _ in range(rng.randint(0, 10)))
